@@ -18,6 +18,14 @@ runtime's, not enumerated.
       quiescent state (balances, active HTLCs, circuits, payment results, invoices) by what the wire implies.
   (e) negative controls: a valid trace with Bob's upstream settle moved before the downstream settle / a
       balance changed must be rejected.
+Two sequential sibling parts bind the DURABLE side of a response on its way back (same go test run):
+  SwitchAck.tla  - the outgoing channel's forwarding package (LockedIn/Processed, SettleFailFilter, garbage collector
+      = the real channelLink.loadAndRemove) against the real Switch: ack only after teardown, removal only when complete,
+      start-up re-forwards the un-acked response of a package in ANY state (harness/htlcswitch/c08_switch_test.go);
+  CloseKeys.tla  - the incoming link: the CommitDiff written with the signature names the circuit of every settle AND
+      fail it covers, so that after a crash between the signature and DeleteCircuits the link's syncChanStates deletes
+      them (real channelLink.handleDownstreamPkt / syncChanStates on a real channel pair, c08_closekeys_test.go);
+  Mailbox.tla    - the mailbox's delivery order across resets.
 Named deviation O4 (an add stranded between CommitCircuits and the forwarder by a reconnect of the incoming link;
 StrandQuirk; finding F22, repaired in /repo 1a31165) is reported under key C08:add-stranded-by-reconnect when a trace
 needs it.
@@ -37,10 +45,20 @@ from ..core import Inconclusive
 
 SPEC = os.path.join(core.VERIF, "spec", "Forwarding")
 LEVEL = "model_checking"
-HARNESS = ["htlcswitch/c08_test.go", "htlcswitch/c08_switch_test.go", "htlcswitch/c08_mailbox_test.go"]
+HARNESS = ["htlcswitch/c08_test.go", "htlcswitch/c08_switch_test.go", "htlcswitch/c08_mailbox_test.go",
+           "htlcswitch/c08_closekeys_test.go"]
 LOST_KEY = "C08:response-not-replayed-after-link-flap"
 SWACK_KEY = "C08:switch-ack"
+SWACK_CONST = {"AckWhileClosing": "FALSE", "GCIgnoresSettleFails": "FALSE", "ReforwardSkipsLockedIn": "FALSE"}
+# directed switch-level schedules executed with every batch: the package still FwdStateLockedIn at a restart
+# (settle / fail), and the garbage collector running at every stage of a package's life
+SWACK_DIRECTED = {"b_0.ndjson": "swack_settle.ndjson", "b_00.ndjson": "swack_fail.ndjson",
+                  "b_000.ndjson": "swack_lockedin.ndjson", "b_0000.ndjson": "swack_lockedin_fail.ndjson",
+                  "b_00000.ndjson": "swack_gc.ndjson", "b_000000.ndjson": "swack_gc_fail.ndjson"}
 MBOX_KEY = "C08:mailbox"
+CLOSEKEYS_KEY = "C08:close-keys"
+CLOSEKEYS_CONST = {"N": 3, "DropFailKeys": "FALSE"}
+CLOSEKEYS_DIRECTED = {"b_0.ndjson": "closekeys_crash.ndjson", "b_00.ndjson": "closekeys_crash2.ndjson"}
 O3_KEY = "C08:owed-commit-sig-not-resumed"
 F21_KEY = "C08:fwdpkg-replay-index"
 O4_KEY = "C08:add-stranded-by-reconnect"
@@ -107,8 +125,13 @@ def model_check(ck, thorough):
         if r.coverage_zero:
             ck.cov.setdefault("vacuous_actions", []).extend(r.coverage_zero)
     # the two small sequential specs, exhaustively
-    ck.model_check(SPEC, "SwitchAckMC", "SwitchAckMC.cfg", "SwitchAck: one circuit, settle and fail, every step order",
-                   constants={"AckWhileClosing": "FALSE"}, workers=2, timeout=300, name="mc_switchack")
+    ck.model_check(SPEC, "SwitchAckMC", "SwitchAckMC.cfg",
+                   "SwitchAck: one circuit, one package (LockedIn/Processed, acked, garbage-collected), settle and fail, "
+                   "every order of Pipe/Revoke/Hand/Lock/Commit/Tick/GC/Restart",
+                   constants=SWACK_CONST, workers=2, timeout=300, name="mc_switchack")
+    ck.model_check(SPEC, "CloseKeysMC", "CloseKeysMC.cfg",
+                   "CloseKeys: %d incoming HTLCs, settle/fail each, every order of Deliver/DeliverCrash/PeerAck/Restart" % (4 if thorough else 3),
+                   constants=dict(CLOSEKEYS_CONST, N=4 if thorough else 3), workers=2, timeout=600, name="mc_closekeys")
     ck.model_check(SPEC, "MailboxMC", "MailboxMC.cfg", "Mailbox: %d packets, every order of add/pick/deliver/ack/reset" % (5 if thorough else 4),
                    constants={"Ids": "{1, 2, 3, 4, 5}" if thorough else "{1, 2, 3, 4}", "ResetKeepsOffered": "FALSE"},
                    workers=4, timeout=900, name="mc_mailbox")
@@ -118,12 +141,18 @@ def model_check(ck, thorough):
              {"NP": 1, "Kinds": ALLK, "Dirs": '{"fwd"}', "MaxNet": 0, "MaxLink": 1, "OwedSigQuirk": "FALSE",
               "StrandQuirk": "FALSE", "ReplayOnLinkStart": "FALSE"}, "QuiescenceRules",
              "witness: without the replay of unacked settles/fails at link start the quiescence rules fail"),
-            ("SwitchAckMC", "SwitchAckMC.cfg", {"AckWhileClosing": "TRUE"}, "AckOnlyAfterTeardown",
+            ("SwitchAckMC", "SwitchAckMC.cfg", dict(SWACK_CONST, AckWhileClosing="TRUE"), "AckOnlyAfterTeardown",
              "witness: acking while the circuit is closing breaks AckOnlyAfterTeardown"),
+            ("SwitchAckMC", "SwitchAckMC.cfg", dict(SWACK_CONST, GCIgnoresSettleFails="TRUE"), "RemovedOnlyWhenDone",
+             "witness: a garbage collector that looks at the adds' AckFilter only removes the package of a live circuit"),
+            ("SwitchAckMC", "SwitchAckMC.cfg", dict(SWACK_CONST, ReforwardSkipsLockedIn="TRUE"), "NothingStranded",
+             "witness: a start-up that skips FwdStateLockedIn packages strands the response of a live circuit"),
+            ("CloseKeysMC", "CloseKeysMC.cfg", dict(CLOSEKEYS_CONST, DropFailKeys="TRUE"), "NoCircuitLeftBehind",
+             "witness: a CommitDiff that names the circuits of settles only leaves the circuit of a failed HTLC behind after a crash"),
             ("MailboxMC", "MailboxMC.cfg", {"Ids": "{1, 2, 3}", "ResetKeepsOffered": "TRUE"}, "NothingSkipped",
              "witness: a reset that keeps the offered reply's head skips the consumed one")):
         r = ck.model_check(SPEC, mod, cfg, what, must_hold=False, constants=consts, workers=2, timeout=300,
-                           name="wit_" + mod)
+                           name="wit_%s_%s" % (mod, want))
         if r.violation != "invariant " + want:
             raise Inconclusive("%s: expected a violation of %s, got %s" % (what, want, r.violation))
     ck.cov["exhaustive"] = True
@@ -133,6 +162,15 @@ def is_new(r):
     return r.get("a") in ("Reset", "New")
 
 
+def split_new(recs):
+    out = []
+    for r in recs:
+        if r.get("a") in ("Reset", "New") or not out:
+            out.append([])
+        out[-1].append(r)
+    return out
+
+
 def small_parts(ck, res, thorough):
     """The switch-level and the mailbox traces of the same go test run."""
     # ---- switch level: deterministic, conformance as invariants
@@ -140,10 +178,20 @@ def small_parts(ck, res, thorough):
     if not os.path.exists(p) or os.path.getsize(p) == 0:
         raise Inconclusive("switch-level executor produced no trace:\n" + res["out"][-2000:])
     recs = core.read_ndjson(p)
-    v = ck.validate(SPEC, "SwitchAckTrace", "SwitchAckTrace.cfg", p, constants={"AckWhileClosing": "FALSE"}, name="val_switch")
+    v = ck.validate(SPEC, "SwitchAckTrace", "SwitchAckTrace.cfg", p, constants=SWACK_CONST, name="val_switch")
     ntr = sum(1 for r in recs if r["a"] == "Reset")
     ck.cov["evaluations"] += len(recs)
-    ck.cov["switch_level"] = dict(traces=ntr, steps=len(recs) - ntr)
+    ck.cov["switch_level"] = dict(traces=ntr, steps=len(recs) - ntr,
+                                  steps_by_action={a: sum(1 for r in recs if r["a"] == a) for a in
+                                                   ("Pipe", "Revoke", "Hand", "Lock", "Commit", "Tick", "GC", "Restart")},
+                                  restarts_with_lockedin_pkg=sum(1 for i, r in enumerate(recs) if r["a"] == "Restart"
+                                                                 and recs[i - 1]["npkg"] == 1 and recs[i - 1]["proc"] == 0),
+                                  gc_with_unacked_pkg=sum(1 for i, r in enumerate(recs) if r["a"] == "GC"
+                                                          and recs[i - 1]["npkg"] == 1 and recs[i - 1]["acked"] == 0),
+                                  gc_removals=sum(1 for i, r in enumerate(recs) if r["a"] == "GC"
+                                                  and recs[i - 1]["npkg"] == 1 and r["npkg"] == 0),
+                                  distinct=len(set(core.sha(str([(r["a"], r["pending"], r["npkg"], r["proc"], r["acked"], r["got"])
+                                                                 for r in t])) for t in split_new(recs))))
     if not v["ok"]:
         line = v["line"] or 1
         a, b = core.slice_trace(recs, line, is_new)
@@ -151,10 +199,17 @@ def small_parts(ck, res, thorough):
         core.write_ndjson(one, recs[a:b])
         bad = recs[min(line - 1, len(recs) - 1)]
         inv = (v["invariant"] or "").replace("invariant ", "")
-        ck.violation("%s:%s:%s" % (SWACK_KEY, inv, bad.get("a")),
-                     "real Switch deviates from spec/Forwarding/SwitchAck (%s) at step %d of schedule %s: %s - a settle/fail "
-                     "must be acked in the outgoing channel's forwarding package only after the incoming link has torn the "
-                     "circuit down" % (v["invariant"], line - a, recs[a].get("plan"), json.dumps(bad)),
+        prev = recs[max(a, min(line - 2, len(recs) - 1))]
+        # the package the step found: none / lockedin / processed / acked
+        found = ("none" if prev.get("npkg") == 0 else "acked" if prev.get("acked") == 1 else
+                 "processed" if prev.get("proc") == 1 else "lockedin")
+        # (keys of the earlier shape stay as they were; the package state is named when it is the new one)
+        ck.violation("%s:%s:%s%s" % (SWACK_KEY, inv, bad.get("a"), ":pkg-lockedin" if found == "lockedin" else ""),
+                     "real Switch / forwarding-package store deviates from spec/Forwarding/SwitchAck (%s) at step %d of "
+                     "schedule %s (package before the step: %s): %s - a settle/fail must be acked in the outgoing channel's "
+                     "forwarding package only after the incoming link has torn the circuit down, the package must stay until "
+                     "then, and a restart must re-forward the un-acked response of a package in any state"
+                     % (v["invariant"], line - a, recs[a].get("plan"), found, json.dumps(bad)),
                      files={"trace.ndjson": one}, text="\n".join(json.dumps(r) for r in recs[a:b]) + "\n" + (v["cex"] or ""))
     else:
         ck.cov["traces_validated_against_impl"] += ntr
@@ -163,11 +218,81 @@ def small_parts(ck, res, thorough):
         bad[i]["acked"] = 1 - bad[i]["acked"]
         q = os.path.join(ck.out, "control_switch.ndjson")
         core.write_ndjson(q, bad)
-        vv = ck.validate(SPEC, "SwitchAckTrace", "SwitchAckTrace.cfg", q, constants={"AckWhileClosing": "FALSE"}, name="control_switch")
+        vv = ck.validate(SPEC, "SwitchAckTrace", "SwitchAckTrace.cfg", q, constants=SWACK_CONST, name="control_switch")
         if vv["ok"]:
             raise Inconclusive("negative control accepted (switch level)")
         ck.cov.setdefault("negative_controls", []).append(dict(mutation="switch level: recorded SettleFailFilter bit flipped at a Tick",
                                                                rejected_by=vv["invariant"], at_line=vv["line"]))
+        # the new fields: the package disappears at a GC that found it un-acked / nothing is delivered at a
+        # restart that found the package LockedIn
+        for what, pick, field in (
+                ("switch level: recorded package presence flipped at a GC that found the package un-acked",
+                 lambda i, r: r["a"] == "GC" and recs[i - 1]["npkg"] == 1 and recs[i - 1]["acked"] == 0, "npkg"),
+                ("switch level: recorded delivery flipped at a Restart that found the package LockedIn",
+                 lambda i, r: r["a"] == "Restart" and recs[i - 1]["npkg"] == 1 and recs[i - 1]["proc"] == 0, "got")):
+            i = next((k for k, r in enumerate(recs) if k > 0 and pick(k, r)), None)
+            if i is None:
+                raise Inconclusive("no switch-level trace suitable for the negative control: " + what)
+            bad = copy.deepcopy(recs)
+            bad[i][field] = 1 - bad[i][field]
+            q = os.path.join(ck.out, "control_switch_%s.ndjson" % field)
+            core.write_ndjson(q, bad)
+            vv = ck.validate(SPEC, "SwitchAckTrace", "SwitchAckTrace.cfg", q, constants=SWACK_CONST, name="control_switch_" + field)
+            if vv["ok"]:
+                raise Inconclusive("negative control accepted (%s)" % what)
+            ck.cov.setdefault("negative_controls", []).append(dict(mutation=what, rejected_by=vv["invariant"], at_line=vv["line"]))
+    # ---- incoming link: the circuits a signature closes, across the crash between signature and DeleteCircuits
+    p = os.path.join(res["dir"], "trace_closekeys.ndjson")
+    if not os.path.exists(p) or os.path.getsize(p) == 0:
+        raise Inconclusive("close-keys executor produced no trace:\n" + res["out"][-2000:])
+    recs = core.read_ndjson(p)
+    v = ck.validate(SPEC, "CloseKeysTrace", "CloseKeysTrace.cfg", p, constants=CLOSEKEYS_CONST, name="val_closekeys")
+    ntr = sum(1 for r in recs if r["a"] == "Reset")
+    ck.cov["evaluations"] += len(recs)
+    ck.cov["close_keys"] = dict(traces=ntr, steps=len(recs) - ntr,
+                                crashes=sum(1 for r in recs if r["a"] == "DeliverCrash"),
+                                restarts=sum(1 for r in recs if r["a"] == "Restart"),
+                                restarts_recovering_keys=sum(1 for r in recs if r["a"] == "Restart" and r["closed"]),
+                                recovered_fail_keys=sum(sum(1 for k in r["closed"] if r["kinds"][k - 1] == "fail")
+                                                        for r in recs if r["a"] == "Restart"),
+                                recovered_settle_keys=sum(sum(1 for k in r["closed"] if r["kinds"][k - 1] == "settle")
+                                                          for r in recs if r["a"] == "Restart"),
+                                executor_notes=sorted(set(r["note"] for r in recs if r.get("note")))[:5],
+                                distinct=len(set(core.sha(str([(r["a"], r["k"], r["circs"], r["closed"], r["active"],
+                                                                r["kinds"]) for r in t])) for t in split_new(recs))))
+    if not v["ok"]:
+        line = v["line"] or 1
+        a, b = core.slice_trace(recs, line, is_new)
+        one = os.path.join(ck.out, "failing_closekeys.ndjson")
+        core.write_ndjson(one, recs[a:b])
+        bad = recs[min(line - 1, len(recs) - 1)]
+        inv = (v["invariant"] or "").replace("invariant ", "")
+        kinds = bad.get("kinds") or []
+        ck.violation("%s:%s:%s" % (CLOSEKEYS_KEY, inv, bad.get("a")),
+                     "real incoming channelLink / lnwallet channel deviates from spec/Forwarding/CloseKeys (%s) at step %d of "
+                     "schedule %s (kinds %s): %s - the commitment diff written with a signature must name the circuit of every "
+                     "settle and fail it covers, so that a restart after the signature deletes them: no circuit is left "
+                     "for a finished HTLC" % (v["invariant"], line - a, recs[a].get("plan"), kinds, json.dumps(bad)),
+                     files={"trace.ndjson": one}, text="\n".join(json.dumps(r) for r in recs[a:b]) + "\n" + (v["cex"] or ""))
+    else:
+        ck.cov["traces_validated_against_impl"] += ntr
+        i = next((k for k, r in enumerate(recs) if r["a"] == "Restart" and r["closed"]
+                  and recs[k - 1]["a"] == "DeliverCrash"), None)
+        if i is None:
+            raise Inconclusive("no close-keys trace suitable for the negative control")
+        for what, field in (("close-keys: one recovered key removed at a Restart after a crash", "closed"),
+                            ("close-keys: a deleted circuit recorded as still present at a Restart after a crash", "circs")):
+            bad = copy.deepcopy(recs)
+            if field == "closed":
+                bad[i]["closed"] = bad[i]["closed"][1:]
+            else:
+                bad[i]["circs"] = sorted(set(bad[i]["circs"]) | set(recs[i]["closed"]))
+            q = os.path.join(ck.out, "control_closekeys_%s.ndjson" % field)
+            core.write_ndjson(q, bad)
+            vv = ck.validate(SPEC, "CloseKeysTrace", "CloseKeysTrace.cfg", q, constants=CLOSEKEYS_CONST, name="control_closekeys_" + field)
+            if vv["ok"]:
+                raise Inconclusive("negative control accepted (%s)" % what)
+            ck.cov.setdefault("negative_controls", []).append(dict(mutation=what, rejected_by=vv["invariant"], at_line=vv["line"]))
     # ---- mailbox: silent courier steps, accepted iff TLC reaches the end of the file (violates NotDone)
     p = os.path.join(res["dir"], "trace_mailbox.ndjson")
     if not os.path.exists(p) or os.path.getsize(p) == 0:
@@ -328,18 +453,24 @@ def run(ck):
     for name, (src, _) in DIRECTED.items():
         shutil.copy(os.path.join(SPEC, "repro", src), os.path.join(sched, name))
     # schedules of the switch-level part and of the mailbox part (every tier)
-    fsw = ck.generate(SPEC, "SwitchAckGen", "SwitchAckGen.cfg", 90 if thorough else 24, 9, name="gen_switch", timeout=300)
+    fsw = ck.generate(SPEC, "SwitchAckGen", "SwitchAckGen.cfg", 120 if thorough else 30, 11, name="gen_switch", timeout=300)
     swdir = os.path.dirname(fsw[0])
-    shutil.copy(os.path.join(SPEC, "repro", "swack_settle.ndjson"), os.path.join(swdir, "b_0.ndjson"))
-    shutil.copy(os.path.join(SPEC, "repro", "swack_fail.ndjson"), os.path.join(swdir, "b_00.ndjson"))
+    for name, src in SWACK_DIRECTED.items():
+        shutil.copy(os.path.join(SPEC, "repro", src), os.path.join(swdir, name))
+    fck = ck.generate(SPEC, "CloseKeysGen", "CloseKeysGen.cfg", 100 if thorough else 24, 10, constants=CLOSEKEYS_CONST,
+                      name="gen_closekeys", timeout=300)
+    ckdir = os.path.dirname(fck[0])
+    for name, src in CLOSEKEYS_DIRECTED.items():
+        shutil.copy(os.path.join(SPEC, "repro", src), os.path.join(ckdir, name))
     fmb = ck.generate(SPEC, "MailboxGen", "MailboxGen.cfg", 600 if thorough else 150, 40, name="gen_mailbox", timeout=300)
     mbdir = os.path.dirname(fmb[0])
     shutil.copy(os.path.join(SPEC, "repro", "mailbox_reset_while_offering_reply.ndjson"), os.path.join(mbdir, "b_0.ndjson"))
     shutil.copy(os.path.join(SPEC, "repro", "mailbox_reset_while_offering_add.ndjson"), os.path.join(mbdir, "b_00.ndjson"))
     # (c) execute on the real network: thorough under the race detector
     free = 160 if thorough else 14
-    res = ck.go_test("./htlcswitch/", "^TestVerifC08(Forwarding|SwitchAck|Mailbox)$", HARNESS,
-                     env={"VERIF_SCHED": sched, "VERIF_FREE": free, "VERIF_PAR": 3, "VERIF_SWACK": swdir, "VERIF_MBOX": mbdir},
+    res = ck.go_test("./htlcswitch/", "^TestVerifC08(Forwarding|SwitchAck|CloseKeys|Mailbox)$", HARNESS,
+                     env={"VERIF_SCHED": sched, "VERIF_FREE": free, "VERIF_PAR": 3, "VERIF_SWACK": swdir, "VERIF_MBOX": mbdir,
+                          "VERIF_CLOSEKEYS": ckdir},
                      race=thorough, timeout=3000 if thorough else 1500, name="exec")
     trace = os.path.join(res["dir"], "trace.ndjson")
     if not os.path.exists(trace) or os.path.getsize(trace) == 0:
@@ -444,12 +575,18 @@ def run(ck):
     ck.cov["trusted_base"] = ["TLC 1.8.0", "CommunityModules Json",
                               "executor taps (one mutex; receipt stamped before processing; send stamped before the message is queued)",
                               "fixture: htlcswitch three-hop mock servers, mock onion decoder, real channels/switch/circuit map/invoice registry",
-                              "bookkeeping of ForwardingTrace (BOLT 2 cover sets) - cross-checked against recorded ActiveHtlcs and balances"]
+                              "bookkeeping of ForwardingTrace (BOLT 2 cover sets) - cross-checked against recorded ActiveHtlcs and balances",
+                              "switch-level fixture: real Switch/circuit map/forwarding packages of a real channel in one database, real "
+                              "channelLink.loadAndRemove; the two links towards the switch are mocks, the package writes are the packager's own calls",
+                              "close-keys fixture: real channel pair, real never-started channelLink (handleDownstreamPkt, syncChanStates called "
+                              "synchronously); the crash is the link's CircuitModifier refusing DeleteCircuits; the peer's side is driven at lnwallet level"]
     ck.assumptions += [
         "observed executions only: the goroutine interleaving inside a node is the Go runtime's, not enumerated",
         "a disconnect loses every message of the old connection; both links of a channel restart together (peer reconnect)",
         "invoice registry and preimage cache are durable across the network restart (carried over, as the repo's own restart test does)",
         "a run whose wire does not fall silent within the bound is inconclusive, never a violation",
+        "SwitchAck / CloseKeys: one forwarded HTLC per package resp. up to 3-4 incoming HTLCs with one signature outstanding; a node "
+        "restart = a new Switch / new channel objects / new link on the same open database (bbolt commits are durable at commit)",
         "O2 (a sender keeps the half-open circuit of an add lost before it was signed) is modelled as a named terminal shape; "
         "O3/F17 (owed commit_sig not resumed; repaired) stays as the named deviation OwedSigQuirk = FALSE, key " + O3_KEY,
     ]
